@@ -280,10 +280,21 @@ func TestSim(t *testing.T) {
 				// Go runtime occasionally orders the library's eagerly running goroutines differently, e.g. when a contended
 				// sync.Mutex enters starvation mode after 1 ms of real time). Such a transient difference is told apart from
 				// a scenario that is not a function of its tape by executing the run twice more.
-				res3 := execute(t, scn, ReplayTape(res.Tape), false)
-				res4 := execute(t, scn, ReplayTape(res.Tape), false)
-				if res3.TraceHash == res4.TraceHash && (res3.TraceHash == res.TraceHash || res3.TraceHash == res2.TraceHash) {
-					out.Transient++
+				// (four more executions: a reproducible run shows one and the same trace in at least four of the six; on a
+				// heavily oversubscribed machine two deviations in a row have been seen, three of six never)
+				tally := map[uint64]int{res.TraceHash: 1}
+				tally[res2.TraceHash]++
+				for k := 0; k < 4; k++ {
+					tally[execute(t, scn, ReplayTape(res.Tape), false).TraceHash]++
+				}
+				most := 0
+				for _, n := range tally {
+					if n > most {
+						most = n
+					}
+				}
+				if most >= 4 {
+					out.Transient += int64(6 - most)
 				} else {
 					out.Nondet++
 				}
